@@ -160,3 +160,69 @@ package registry
 //@   ensures found: ok ==> p != nil && qual(p) == name && exists(string(k), dom(r.imports, k) && r.imports[k] == p)
 //@   ensures not-found: !ok ==> p == nil && forall(string(k), dom(r.imports, k) ==> qual(r.imports[k]) != name)
 //@   ensures{C14} unique-hit: ok && (forall(string(a), string(b), dom(r.imports, a) && dom(r.imports, b) && a != b ==> qual(r.imports[a]) != qual(r.imports[b]))) ==> forall(string(k), dom(r.imports, k) && qual(r.imports[k]) == name ==> r.imports[k] == p)
+
+//@ -- naming (C12, C13) ------------------------------------------------------------------------
+//@ -- the spec's own copy of the names a generated parameter name must avoid
+//@ define isReserved(n) = n == "mock" || n == "callInfo" || n == "break" || n == "default" || n == "func" || n == "interface" || n == "select"
+//@     || n == "case" || n == "defer" || n == "go" || n == "map" || n == "struct" || n == "chan" || n == "else" || n == "goto" || n == "package"
+//@     || n == "switch" || n == "const" || n == "fallthrough" || n == "if" || n == "range" || n == "type" || n == "continue" || n == "for"
+//@     || n == "import" || n == "return" || n == "var" || n == "string" || n == "bool" || n == "byte" || n == "rune" || n == "uintptr"
+//@     || n == "int" || n == "int8" || n == "int16" || n == "int32" || n == "int64" || n == "uint" || n == "uint8" || n == "uint16"
+//@     || n == "uint32" || n == "uint64" || n == "float32" || n == "float64" || n == "complex64" || n == "complex128"
+//@ define nameOf(t) = uf("registry.varNameForType", String, t)
+//@ define decap(x) = toLower(x[:1]) + x[1:]
+//@ define capit(x) = toUpper(x[:1]) + x[1:]
+//@ define nested(t) = ite(isType(t, *types.Basic), decap(as(t, *types.Basic).String()), nameOf(t))
+
+//@ func registry.varName -> s
+//@   props C12 C13
+//@   safety C19
+//@   requires vr != nil
+//@   ensures{C13} user-name-kept: vr.Name() != "" && vr.Name() != "_" ==> s == vr.Name() + suffix
+//@   ensures{C12} generated-not-reserved: (vr.Name() == "" || vr.Name() == "_") ==> !isReserved(s)
+//@   ensures{C13} generated-from-type: (vr.Name() == "" || vr.Name() == "_") ==> s == ite(isReserved(nameOf(vr.Type()) + suffix), nameOf(vr.Type()) + suffix + "MoqParam", nameOf(vr.Type()) + suffix)
+
+//@ func registry.varNameForType -> s
+//@   props C13
+//@   safety C19
+//@   functional registry.varNameForType
+//@   decreases uf("types.size", Int, t)
+//@   ensures{C13,C19} non-empty: s != ""
+//@   ensures error-type: isType(t, *types.Named) && as(t, *types.Named).Obj().Name() == "error" ==> s == "err"
+//@   ensures named-type: isType(t, *types.Named) && as(t, *types.Named).Obj().Name() != "error" ==> s == ite(decap(as(t, *types.Named).Obj().Name()) == as(t, *types.Named).Obj().Name(), decap(as(t, *types.Named).Obj().Name()) + "MoqParam", decap(as(t, *types.Named).Obj().Name()))
+//@   ensures basic-type: isType(t, *types.Basic) ==> s == uf("registry.basicTypeVarName", String, t)
+//@   ensures slice-type: isType(t, *types.Slice) ==> s == nested(as(t, *types.Slice).Elem()) + "s"
+//@   ensures array-type: isType(t, *types.Array) ==> s == nested(as(t, *types.Array).Elem()) + "s"
+//@   ensures pointer-type: isType(t, *types.Pointer) ==> s == nameOf(as(t, *types.Pointer).Elem())
+//@   ensures map-type: isType(t, *types.Map) ==> s == nested(as(t, *types.Map).Key()) + "To" + capit(nested(as(t, *types.Map).Elem()))
+//@   ensures chan-type: isType(t, *types.Chan) ==> s == nested(as(t, *types.Chan).Elem()) + "Ch"
+//@   ensures struct-type: isType(t, *types.Struct) ==> s == "val"
+//@   ensures func-type: isType(t, *types.Signature) ==> s == "fn"
+//@   ensures interface-type: isType(t, *types.Interface) ==> s == "ifaceVal"
+//@   ensures other-type: !isType(t, *types.Named) && !isType(t, *types.Basic) && !isType(t, *types.Slice) && !isType(t, *types.Array) && !isType(t, *types.Pointer) && !isType(t, *types.Map) && !isType(t, *types.Chan) && !isType(t, *types.Struct) && !isType(t, *types.Signature) && !isType(t, *types.Interface) ==> s == "v"
+
+//@ func registry.basicTypeVarName -> s
+//@   props C13
+//@   safety C19
+//@   functional registry.basicTypeVarName
+//@   requires b != nil
+//@   ensures boolean: b.Info() == 1 ==> s == "b"
+//@   ensures integer: b.Info() == 2 ==> s == "n"
+//@   ensures float: b.Info() == 8 ==> s == "f"
+//@   ensures string: b.Info() == 32 ==> s == "s"
+//@   ensures other: b.Info() != 1 && b.Info() != 2 && b.Info() != 8 && b.Info() != 32 ==> s == "v"
+//@   ensures non-empty: s != ""
+
+//@ func registry.capitalise -> r
+//@   props C13
+//@   safety C19
+//@   functional registry.capitalise
+//@   requires s != ""
+//@   ensures r == capit(s) && r != ""
+
+//@ func registry.deCapitalise -> r
+//@   props C13
+//@   safety C19
+//@   functional registry.deCapitalise
+//@   requires s != ""
+//@   ensures r == decap(s) && r != ""
